@@ -35,9 +35,10 @@ here with its status.  Nothing here edits `Headline.lean` / `HeadlineExtra.lean`
   (script length plus the number of Stdout records of the script).  It bounds the length of the handler's own
   OUTPUT only; wire, records and buffer are unbounded in all these conjuncts.
 * `hhf : 2·n + wcost |data| + c ≤ 1000` (C07 Clauses 10–12, the `AsyncBufRead` handlers): same fuel; the script
-  has `n` `fill_buf`/`consume` rounds of two operations each, and the theorems need `|content| ≤ n` (the model has
-  no looping buffered operation), so these three clauses cover Stdin contents of at most ≈ 490 bytes.  The
-  constant would have to grow with the script length `|h.ops| = 2·n + …`.
+  has `n` `fill_buf`/`consume` rounds of two operations each (the model has no looping buffered operation), and
+  Clause 10 (drain Stdin through `fill_buf` alone) needs `|content| ≤ n`, so it covers Stdin contents of at most
+  ≈ 490 bytes; Clauses 11–12 bound only the number of rounds.  The constant would have to grow with the script
+  length `|h.ops| = 2·n + …`.
 * `hfuel : |t.rd| + |t.wr| + k ≤ fuel` (every end-to-end conjunct): `fuel` is the number of POLLS the model
   executor `runTask` may make, `t.rd`/`t.wr` are the scripted read/write answers (each `Pending` answer ends a
   poll).  Not a bound on anything: it says "the executor keeps polling until the scripted transport has
